@@ -10,7 +10,7 @@ from common import Driver, DriverFailure, REPO, hx
 
 LEVEL = "proof"
 MANIFEST = dict(
-    text="Lean 4 theorems over the command model (on C02's accessor model and C05's echo application) for every well-formed item, every 1024-byte block (= every  Session 4: a LONG session on one connection (140 pack commands, more than two cycles of the command sequence numbers): each still one well-formed in-range command, applied and read back. Session 4: a long session on the blocking client too (real GeckoSpa, real pump and switch classes, 150 commands decoded by the real SPACK decoder, stored and echoed). Also: a command issued while another exchange holds the connection for longer than a request timeout goes out exactly once."
+    text="Lean 4 theorems over the command model (on C02's accessor model and C05's echo application) for every well-formed item, every 1024-byte block (= every "
          "current state) and every argument: an on/off command emits at most one command and none exactly when already in the requested state (one_or_none); key-press "
          "devices press once and - the spa toggling being the property's stated assumption - reach the requested state after which the command is a no-op; direct-write "
          "switches (economy mode), pump modes, temperature unit and watercare emit exactly one set-value / SETWC that the spa can store and that reads back as requested "
@@ -18,7 +18,7 @@ MANIFEST = dict(
          "(C16's regenerated call-site table). Tie: differential correspondence on the FULL real stack (GeckoAsyncSpaMan + locator + spa + facade on the virtual loop, "
          "peer = the real simulator extended to apply writes / key presses and echo through its own report_changes): predicted emissions vs datagrams decoded by the real "
          "handlers; threaded twins on a stub spa. Search monitors: datagram count, pack type / versions / sequence range, state after echo, second command silent."
-         ' Since session 3: watercare_command_survives_polls (Model/WatercareRace.lean: one async_set_mode whose statement order is GENERATED, any number of facade polls, the protocol lock, any scheduler: once the command has returned spa and client both hold the requested mode) with the counterexample for the optimistic order; the real stack is exercised with a spa that holds its watercare answers, and with devices switched at the spa between facade commands.',
+         ' Since session 3: watercare_command_survives_polls (Model/WatercareRace.lean: one async_set_mode whose statement order is GENERATED, any number of facade polls, the protocol lock, any scheduler: once the command has returned spa and client both hold the requested mode) with the counterexample for the optimistic order; the real stack is exercised with a spa that holds its watercare answers, and with devices switched at the spa between facade commands. Session 4: a LONG session on one connection (140 pack commands, more than two cycles of the command sequence numbers): each still one well-formed in-range command, applied and read back. Session 4: a long session on the blocking client too (real GeckoSpa, real pump and switch classes, 150 commands decoded by the real SPACK decoder, stored and echoed). Also: a command issued while another exchange holds the connection for longer than a request timeout goes out exactly once.',
     note="The spa's reaction (store + echo; key press toggles the device behind the key) is the assumption the property prescribes, implemented by the harness peer and as "
          "definitions in the model. Target temperature conversion is C14's. Trusted: Lean kernel, translator for the tables, the harness.",
     technique="Lean 4 proofs by composition of C02/C05/C16 theorems + induction over command sequences; differential correspondence on the full real stack",
